@@ -1405,11 +1405,15 @@ def _deserialize_node(
             deserialize_node_device_configuration(device_configuration, values=merged_values)
             for device_configuration in proto.device_configurations
         )
+    # Attribute names are unique within a node. When a name is repeated only the last attribute
+    # is kept (as the attribute mapping of the node does); the shadowed ones are not deserialized,
+    # so that a subgraph that is dropped does not register itself as a user of outer values.
+    attribute_protos = {a.name: a for a in proto.attribute}.values()
     node = _core.Node(
         proto.domain,
         proto.op_type,
         node_inputs,
-        [_deserialize_attribute(a, scoped_values) for a in proto.attribute],
+        [_deserialize_attribute(a, scoped_values) for a in attribute_protos],
         overload=getattr(proto, "overload", ""),
         outputs=node_outputs,
         name=proto.name,
